@@ -568,14 +568,22 @@ Definition entries_of (t : tree) (r : request) : list (string * entry) :=
   end.
 
 (* dict form: every key is resolved to the denotation of its path (one entry per key, in request order) *)
-Theorem positions_dict_spec : forall t reqs, wfb t = true -> reqs_resolvable t reqs = true ->
+Theorem positions_dict_spec : forall t reqs, wfb t = true -> reqs_resolvable t reqs = true -> all_found t reqs = true ->
   positions_dict t reqs = Ok (flat_map (entries_of t) reqs).
 Proof.
-  intros t reqs W. induction reqs as [|[key [pat [o x]]] reqs IH]; intro R; [reflexivity|].
+  intros t reqs W. induction reqs as [|[key [pat [o x]]] reqs IH]; intros R A; [reflexivity|].
   unfold reqs_resolvable in R. cbn [forallb fst snd] in R. apply andb_true_iff in R as [R1 R2].
+  unfold all_found in A. cbn [forallb] in A. apply andb_true_iff in A as [A1 A2].
   cbn [positions_dict]. rewrite (get_nodes_correct t (Some (o, x)) pat W R1). cbn [bind].
-  rewrite (IH R2). cbn [bind flat_map entries_of].
-  destruct (path_denotation t (Some (o, x)) pat) as [|n [|n' ns]]; reflexivity.
+  cbn [flat_map entries_of].
+  destruct (path_denotation t (Some (o, x)) pat) as [|n [|n' ns]]; [discriminate| |]; rewrite (IH R2 A2); reflexivity.
+Qed.
+
+(* fix D48: a key whose path denotes nothing is refused, not dropped *)
+Theorem positions_dict_missing : forall t key pat o x rest, wfb t = true -> resolvable t pat = true ->
+  path_denotation t (Some (o, x)) pat = [] -> positions_dict t ((key, (pat, (o, x))) :: rest) = Err PyRatesException.
+Proof.
+  intros t key pat o x rest W R E. cbn [positions_dict]. rewrite (get_nodes_correct t (Some (o, x)) pat W R), E. reflexivity.
 Qed.
 
 Lemma var_key_length : forall n o x, List.length (var_key n o x) = List.length n + 2.
@@ -591,10 +599,6 @@ Proof.
   replace (List.length n + 2 - 2) with (List.length n) by lia. replace (List.length n + 2 - 1) with (S (List.length n)) by lia.
   rewrite !app_nth2 by lia. rewrite Nat.sub_diag. replace (S (List.length n) - List.length n) with 1 by lia. reflexivity.
 Qed.
-
-(* a one-character key survives MultiIndex.from_tuples *)
-Lemma chars_single : forall c, chars (String c EmptyString) = [String c EmptyString].
-Proof. reflexivity. Qed.
 
 (* on a fresh template the source of a variable is the vector of its representative and its own unit index *)
 Theorem source_of_fresh : forall L v vec i, tsvi L = [] -> source_of L v = Ok (vec, i) ->
@@ -673,12 +677,12 @@ Lemma list_old_refuted :
   pos L3 ["B"; "op"; "x"] = Some 1.
 Proof. vm_compute. repeat split. Qed.
 
-Lemma plain_key_split_refuted :
+(* regression for D43 (repaired): a plain key next to a wildcard key keeps its label *)
+Lemma plain_key_regression :
+  map fst (match run_columns flat3 L3 DictForm [("ab", (["B"], ox)); ("a", (["all"], ox))] with Ok l => l | Err _ => [] end) =
+  map fst (spec_columns flat3 DictForm [("ab", (["B"], ox)); ("a", (["all"], ox))]) /\
   run_columns flat3 L3 DictForm [("ab", (["B"], ox)); ("a", (["all"], ox))] =
-    Ok [(["a"; "b"], ("x", 1)); (["a"; "A"; "op/x"], ("x", 0)); (["a"; "B"; "op/x"], ("x", 1)); (["a"; "C"; "op/x"], ("x", 2))] /\
-  map fst (spec_columns flat3 DictForm [("ab", (["B"], ox)); ("a", (["all"], ox))]) =
-    [["ab"]; ["a"; "A"; "op/x"]; ["a"; "B"; "op/x"]; ["a"; "C"; "op/x"]] /\
-  mixed_labels_ok flat3 [("ab", (["B"], ox)); ("a", (["all"], ox))] = false.
+    Ok [(["ab"], ("x", 1)); (["a"; "A"; "op/x"], ("x", 0)); (["a"; "B"; "op/x"], ("x", 1)); (["a"; "C"; "op/x"], ("x", 2))].
 Proof. vm_compute. repeat split. Qed.
 
 Lemma overlap_refuted :
